@@ -797,6 +797,19 @@ func runR58(c *Ctx) {
 			c.undecided(cp+"|AppendByteStringAt", "-", "method not found")
 			continue
 		}
+		hasNull := false
+		defer func(cp string, fn *ssa.Function) {
+			// the nullable cell types (float: NaN, string, enum) have a return that writes null under the null test:
+			// without it NaN goes to the number formatter and a null string comes out as the empty string
+			if cp == "internal/icolumn" || cp == "internal/bcolumn" {
+				return
+			}
+			if hasNull {
+				c.ok(fname(fn)+"|null case", p.pos(fn.Pos()), "null cells are written as null")
+			} else {
+				c.bad(fname(fn)+"|null case", p.pos(fn.Pos()), "no return writes the constant null under the cell's null test: a null (NaN) cell reaches the value formatter and is written as \"\" (NaN), which is not what the frame holds (and for NaN not JSON)")
+			}
+		}(cp, fn)
 		eachInstr(fn, func(in ssa.Instruction) {
 			ret, ok := in.(*ssa.Return)
 			if !ok {
@@ -819,6 +832,7 @@ func runR58(c *Ctx) {
 						}
 					}
 					if okG {
+						hasNull = true
 						c.ok(key, pos, "null under the null test")
 					} else {
 						c.bad(key, pos, "the constant null is written without the cell having been tested null")
